@@ -1,7 +1,7 @@
 (* Tie (c): eds._signed_int_from_hex and eds._calc_bit_length as translated from the CURRENT source text
    (Gen/Src.v) equal the model of Model/Eds.v and the regenerated CALC_BIT_LENGTH table (C08). *)
 From Coq Require Import ZArith List Bool Lia.
-From CV Require Import Base.Tys Base.PyLib Gen.Tables Gen.Src Gen.EdsTables Model.Eds.
+From CV Require Import Base.Tys Base.PyLib Gen.Tables Gen.SrcC08 Gen.EdsTables Model.Eds.
 Import ListNotations.
 Open Scope Z_scope.
 
